@@ -547,7 +547,9 @@ def row304 (d : Disk) (ai : Header) (cs : List Contact) (w : Writer) (sg : Condi
   else
     match republish d w now (some (Conditional.dropZeroContentLength resp.header)) with
     | (d1, false) => .done { disk := d1, out := { status := 500 }, contacts := cs, label := "w:304-closeerr" }
-    | (d1, true) => .reenter d1 client2 (ai.set kStatus b!"revalidated") false cs "w:304>"
+    -- (since the fix: commit for the two-values loop the re-entry runs with skipRevalidate = true: the entry the
+    -- origin has just confirmed is served, not asked about again)
+    | (d1, true) => .reenter d1 client2 (ai.set kStatus b!"revalidated") true cs "w:304>"
 
 /-- a writer row after the origin has answered with `resp` (server.go:371-478); `cs` = the performer's
     log including this contact -/
@@ -637,7 +639,7 @@ def lockedReentry (cfg : Config) (origin : Bytes → Option Origin) (now : Int) 
   | (d, .panic _) => { disk := d, out := { wrote := false }, contacts := cs, label := "g:panic" }
   | (d, .notFound) => { disk := d, out := { hang := true }, contacts := cs, label := "g:selfwait" }
   | (d, .found _ s) =>
-    match Freshness.get true (entryOf s) now cfg.force false
+    match Freshness.get true (entryOf s) now cfg.force true
         (client.get b!"if-none-match") (client.get b!"if-modified-since") cfg.sfx with
     | .panic _ => { disk := d, out := { wrote := false }, contacts := cs, label := "g:panic" }
     | .ok (.found304 _) =>
